@@ -127,8 +127,9 @@ const MAX_MACRO_DEPTH: usize = 64;
 const MAX_MACRO_EXPANSIONS: usize = 1 << 18;
 
 /// Lines of macro bodies one build may expand: a few calls of long bodies that call long bodies give as many lines
-/// as many calls do. No device has room for more (the largest flash holds 128 K instructions)
-const MAX_EXPANDED_LINES: usize = 1 << 20;
+/// as many calls do. Comments, blank lines and arms that are not assembled count as well, so there is room for a body
+/// of some dozen lines for every word of the largest flash (128 K words)
+const MAX_EXPANDED_LINES: usize = 1 << 22;
 
 /// Longest line a macro body may become when its arguments are put in: an argument handed on twice doubles with every level
 const MAX_EXPANDED_LINE: usize = 1 << 16;
